@@ -14,12 +14,13 @@ for d in sorted(glob.glob(os.path.join(ROOT, "seeded", "*", "meta.json"))):
     keys = sorted(set(keys))
     rows.append((n, m["property"], m.get("summary", "").replace("|", "/").replace("\n", " ")[:260],
                  m.get("needs_to_manifest", "").replace("|", "/").replace("\n", " ")[:200],
-                 ("superseded by fix " + r["superseded"].get("by", "") if r.get("superseded") else "yes" if r.get("detected") else ("NO" if r else "not run")), ", ".join(k.split(":", 1)[1] if ":" in k else k for k in keys[:4])))
+                 ("out of the property's scope" if r.get("out_of_scope") else "superseded by fix " + r["superseded"].get("by", "") if r.get("superseded") else "yes" if r.get("detected") else ("NO" if r else "not run")), ", ".join(k.split(":", 1)[1] if ":" in k else k for k in keys[:4])))
 out = ["# Seeded property-breaking changes", "",
        "Written by independent sub-agents that saw only the property text (wave `b`: asked to exceed small bounds; wave `c`: told that length ladders, repeated faults and many-thread runs exist too). Each compiles, passes the pinned 185-test suite,",
        "has a demonstration that fails with it and passes without it (all re-confirmed by the main session in a scratch worktree; see `confirmed` in each meta.json),",
        "and was then run against the registered quick check with `lib/seedtest.py` (apply to /repo, run, undo).", "",
-       f"{sum(1 for r in rows if r[4]=='yes')} of {sum(1 for r in rows if not r[4].startswith('superseded'))} detected"
+       f"{sum(1 for r in rows if r[4]=='yes')} of {sum(1 for r in rows if not r[4].startswith('superseded') and not r[4].startswith('out of'))} detected"
+       + (f" ({sum(1 for r in rows if r[4].startswith('out of'))} out of the property's scope: the change does not break the property as quantified, see its meta.json)." if any(r[4].startswith('out of') for r in rows) else "")
        + (f" ({sum(1 for r in rows if r[4].startswith('superseded'))} superseded: the change no longer breaks the property after a later fix: commit, see its meta.json)." if any(r[4].startswith('superseded') for r in rows) else "."), "",
        "| seed | property | change | needs | detected | first keys |", "|---|---|---|---|---|---|"]
 for r in rows:
